@@ -139,6 +139,15 @@ CLAIMED = {
              "run; each call site reports which function it reached), with definitions in objects, archive members and a shared library. Symbol versions/LTO are outside the generated inputs.",
         technique="Coq proof (induction over the --wrap list, closed form of the fold) + model/implementation and spec/GNU-ld correspondence on generated, executed programs",
         design_ref="DESIGN.md §3 C33"),
+    "C18": dict(
+        text="S2: an abstract file system (Cfs/Model.v: names, inodes, contents; rename/unlink/O_TRUNC/ETXTBSY) and the file operations of one link transcribed from file_writer.rs and "
+             "lib.rs (default and forced write modes, background vs main-thread creation, the ETXTBSY fallback, failure before set_size / after it / in the write phase / after it, "
+             "remove_after_failed_link). Theorems: for every configuration, prior state and failure point at which wild returns an error, the output path is afterwards absent or still "
+             "bound to the old inode with its old contents; a successful link leaves a complete fresh file. A link that is KILLED after the file exists is refuted in the model and recorded.",
+        note="Trusted: the transcription of the operation sequence and the kernel rules; tied on every run by executing the hooked wild over the configuration matrix (natural errors and "
+             "WILD_VERIF_POINT error injection) and comparing the state of the output path (inode, bytes, mtime) with the model. One defect repaired (fix: remove the output file when the link fails).",
+        technique="Coq proof (case analysis over the link's control flow on an abstract file system) + model/implementation correspondence by fault injection over the configuration matrix",
+        design_ref="DESIGN.md §3 C18"),
     "C37": dict(
         text="S1 on top of C03: DT_NEEDED = the shared libraries in the verified loaded set, in command-line order. Theorems: listed iff loaded shared library; every --no-as-needed library listed; "
              "an --as-needed library listed only if some loaded file non-weakly references a name whose first definition it is; strictly increasing command-line positions (each at most once).",
